@@ -325,6 +325,34 @@ def auto_discharge(mir, site_fn, b, bb, t):
                     lo, hi = 0, n
             if lo is not None and 0 <= lo <= hi <= n:
                 return "constant range %d..%d inside a fixed-size array of %d elements" % (lo, hi, n)
+    if re.search(r"Index(Mut)?::index(_mut)?$", name) and len(args) == 2:
+        # `s[k..]` / `s[..k]` / `s[a..b]` with constant bounds on a slice whose length a dominating guard bounds from below
+        # (`if s.len() < 2 { continue }`): the interval analysis keeps the length of the slice as a symbol
+        r = args[1]
+        need = None
+        if r[0] == "agg" and "ops::range::Range" in str(r[1]) and all(x[0] == "const" and x[1] is not None for x in r[2]):
+            nm = str(r[1][1]).split("::")[-1] if len(r[1]) > 1 else ""
+            vals = [x[1] for x in r[2]]
+            if nm == "RangeFrom":
+                need = vals[0]
+            elif nm == "RangeTo":
+                need = vals[0]
+            elif nm == "RangeToInclusive":
+                need = vals[0] + 1
+            elif nm == "Range" and vals[0] <= vals[1]:
+                need = vals[1]
+        elif r[0] == "const" and r[1] is not None:
+            need = r[1] + 1
+        if need is not None:
+            try:
+                an = absint.Intervals(b, mir)
+                base = an.ref_base(t["args"][0])
+                env = getattr(an, "exit_env", {}).get(bb, {})
+                iv = env.get(("p", "%d#len" % base)) if base is not None else None
+            except Exception:
+                iv = None
+            if iv is not None and iv[0] >= need:
+                return "constant bound %d inside a slice of at least %d elements (dominating length guard, interval analysis)" % (need, iv[0])
     if re.search(r"Vec::<T(, A)?>::resize$", name) and len(args) >= 2:
         # the new length is computed from lengths of data already in memory and constants only (through integer-only helpers)
         def in_memory(o, depth=0):
@@ -385,6 +413,29 @@ def discharge_assert_relational(mir, b, bb):
     (R) a = (v.len() + m) & !m  or  v.len().next_multiple_of(c), with v unchanged in between: a >= len."""
     from mirq import strip_refs
     t = b.blocks[bb]["term"]
+    if t and t["k"] == "assert" and t.get("msg") == "bounds" and "len" in t and "index" in t:
+        # `w[i]` with a constant i where w is an element of `s.windows(k)` / `s.chunks_exact(k)`: every such element has k items
+        lo = b.origin(t["len"])
+        io = b.origin(t["index"])
+        x = lo[2] if lo[0] == "un" and lo[1] in ("PtrMetadata", "Len") else None
+        while isinstance(x, tuple) and x and x[0] in ("ref", "deref"):
+            x = x[1]
+        if x is not None and io[0] == "const" and io[1] is not None and x[0] == "field" and x[1][0] == "downcast" and x[1][3] == "Some":
+            it = x[1][1]
+            for _ in range(6):
+                if not (isinstance(it, tuple) and it):
+                    break
+                if it[0] in ("ref", "deref"):
+                    it = it[1]
+                elif it[0] == "call" and re.search(r"Iterator::next$|IntoIterator::into_iter$|Iterator::by_ref$", it[1] or "") and it[3]:
+                    it = it[3][0]
+                else:
+                    break
+            if isinstance(it, tuple) and it and it[0] == "call" and re.search(r"<impl \[T\]>::(windows|chunks_exact|array_windows)$", it[1] or "") and len(it[3]) > 1:
+                k = it[3][1]
+                if k[0] == "const" and k[1] is not None and io[1] < k[1]:
+                    return "index %d into an element of `%s(%d)`: every element has exactly %d items" % (io[1], it[1].split("::")[-1], k[1], k[1])
+        return None
     if not t or t["k"] != "assert" or "overflow" not in str(t.get("msg", "")).lower():
         return None
     o = b.origin(t["cond"])
